@@ -18,7 +18,7 @@
    Everything outside the two packages is an input of the action: the datagram bytes, whether the
    traffic logger lets the message through, whether the dial succeeds, what the target answers,
    quic-go's verdict on a datagram size, when sessions expire / are closed by the local user. *)
-From Hy Require Export model.C05_Frag.
+From Hy Require Export model.C05_Frag gen.ParamsC03.
 From Coq Require Import ZArith.
 Local Open Scope N_scope.
 
@@ -123,7 +123,7 @@ Fixpoint srv_run (s : sstate) (l : list sact) : Res (sstate * list sout) :=
 
 (* ------------------------------------------------------------------ client *)
 
-Definition udpMessageChanSize : nat := 1024.
+Definition udpMessageChanSize : nat := N.to_nat cl_udpMessageChanSize.   (* 1024, regenerated *)
 
 Record cconn := mkCC { cc_id : N;             (* uint32 *)
                        cc_d : dstate;
